@@ -17,6 +17,10 @@ type cosRec struct {
 	Kind   string   `json:"kind"`
 	Mods   []string `json:"mods"`
 	Option []string `json:"option"`
+	// Ctype is a content-type modifier written next to the others ("none" or absent: no such modifier); Direct the
+	// option of a verdict built directly from the rule, whether or not it matches the page's request.
+	Ctype  string   `json:"ctype"`
+	Direct []string `json:"direct"`
 }
 
 func optionSet(o rules.CosmeticOption) []string {
@@ -51,11 +55,19 @@ func cmdReplayCosOpt(args []string) error {
 	for _, c := range recs {
 		sort.Strings(c.Option)
 		exp := strings.Join(c.Option, ",")
+		if c.Direct == nil {
+			c.Direct = c.Option
+		}
+		sort.Strings(c.Direct)
+		expDirect := strings.Join(c.Direct, ",")
 		if len(c.Option) < 3 {
 			nontrivial++
 		}
 		for _, order := range []int{0, 1} {
 			mods := append([]string{}, c.Mods...)
+			if c.Ctype != "" && c.Ctype != "none" {
+				mods = append(mods, c.Ctype)
+			}
 			sort.Strings(mods)
 			if order == 1 {
 				for i, j := 0, len(mods)-1; i < j; i, j = i+1, j-1 {
@@ -74,21 +86,29 @@ func cmdReplayCosOpt(args []string) error {
 				}
 				r, err := rules.NewNetworkRule(text, 1)
 				if err != nil {
-					return fmt.Errorf("rule %q rejected: %v", text, err)
+					// the specification gives this text a meaning: a parser that refuses it loses the rule (the
+					// engine below then answers as if it were absent)
+					evals++
+					mism++
+					out.write(map[string]any{"entry": "NewNetworkRule", "rule": text, "expected": c.Option, "got": []string{"rejected"}, "detail": err.Error(), "case": c})
+				} else {
+					rs = append(rs, r)
 				}
-				rs = append(rs, r)
 			}
 			if len(samples) < 6 && evals%97 == 3 {
 				samples = append(samples, text+" -> "+exp)
 			}
+			want := exp
 			check := func(entry string, got []string, extra string) {
 				evals++
-				if strings.Join(got, ",") != exp {
+				if strings.Join(got, ",") != want {
 					mism++
 					out.write(map[string]any{"entry": entry, "rule": text, "expected": c.Option, "got": got, "detail": extra, "case": c})
 				}
 			}
+			want = expDirect
 			check("GetCosmeticOption", optionSet(rules.NewMatchingResult(rs, nil).GetCosmeticOption()), "")
+			want = exp
 			// through the engine: the option drives which selectors the cosmetic engine returns
 			list := "##.generic\nh.test##.specific\n" + text + "\n"
 			st, err := filterlist.NewRuleStorage([]filterlist.RuleList{&filterlist.StringRuleList{ID: 1, RulesText: list}})
@@ -112,23 +132,23 @@ func cmdReplayCosOpt(args []string) error {
 			if len(cr.ElementHiding.Generic) == 1 && cr.ElementHiding.Generic[0] == ".generic" {
 				dec = append(dec, "gcss")
 			}
-			var want []string
+			var wantDec []string
 			hasCSS := false
 			for _, o := range c.Option {
 				if o == "css" {
 					hasCSS = true
-					want = append(want, "css")
+					wantDec = append(wantDec, "css")
 				}
 			}
 			for _, o := range c.Option {
 				if o == "gcss" && hasCSS {
-					want = append(want, "gcss")
+					wantDec = append(wantDec, "gcss")
 				}
 			}
 			evals++
-			if strings.Join(dec, ",") != strings.Join(want, ",") {
+			if strings.Join(dec, ",") != strings.Join(wantDec, ",") {
 				mism++
-				out.write(map[string]any{"entry": "Engine.GetCosmeticResult", "rule": text, "expected": want, "got": dec,
+				out.write(map[string]any{"entry": "Engine.GetCosmeticResult", "rule": text, "expected": wantDec, "got": dec,
 					"detail": fmt.Sprintf("%+v", cr.ElementHiding), "case": c})
 			}
 		}
